@@ -93,6 +93,8 @@ def worker(spec):
             if i >= len(want_frames):
                 break
             exp = run.truth(id(fr.pyframe))
+            if len(exp) >= 11:
+                res.count("obs_with_11_or_more_active_contexts")
             if exp:
                 nontrivial = True
             p = ctxmon.compare_exact(fr.contexts, exp)
